@@ -208,6 +208,10 @@ var c18handlers = []fieldH{
 	{"ProtoHandler", "proto", func() func(http.Handler) http.Handler { return hlog.ProtoHandler("proto") }, func(id int) string { p, _, _ := reqProto(id); return p }, false},
 	{"HTTPVersionHandler", "httpver", func() func(http.Handler) http.Handler { return hlog.HTTPVersionHandler("httpver") }, func(id int) string { p, _, _ := reqProto(id); return strings.TrimPrefix(p, "HTTP/") }, false},
 	{"CustomHeaderHandler", "custom", func() func(http.Handler) http.Handler { return hlog.CustomHeaderHandler("custom", "X-Custom") }, func(id int) string { _, _, _, _, _, c, _ := reqVals(id); return c }, false},
+	// header names are case-insensitive: the same header configured in other spellings
+	{"CustomHeaderHandler(lower-case name)", "custom_lc", func() func(http.Handler) http.Handler { return hlog.CustomHeaderHandler("custom_lc", "x-custom") }, func(id int) string { _, _, _, _, _, c, _ := reqVals(id); return c }, false},
+	{"CustomHeaderHandler(upper-case name)", "custom_uc", func() func(http.Handler) http.Handler { return hlog.CustomHeaderHandler("custom_uc", "X-CUSTOM") }, func(id int) string { _, _, _, _, _, c, _ := reqVals(id); return c }, false},
+	{"ResponseHeaderHandler(lower-case name)", "resph_lc", func() func(http.Handler) http.Handler { return hlog.ResponseHeaderHandler("resph_lc", "x-resp") }, func(id int) string { return fmt.Sprintf("resp-r%dx", id) }, true},
 	{"HostHandler", "host", func() func(http.Handler) http.Handler { return hlog.HostHandler("host") }, func(id int) string { _, _, _, _, _, _, h := reqVals(id); return h }, false},
 	{"HostHandler(trim)", "hostname", func() func(http.Handler) http.Handler { return hlog.HostHandler("hostname", true) }, func(id int) string {
 		_, _, _, _, _, _, h := reqVals(id)
